@@ -30,37 +30,55 @@ struct Pool {
     dq: DQuat,
     dm: DMat4,
 }
-type Bits = [u64; 44];
+const NB: usize = 61;
+type Bits = [u64; NB];
 impl Pool {
+    /// lossless image of the pool (the model-checker state); `from_bits` is its inverse
     fn bits(&self) -> Bits {
-        let mut b = [0u64; 44];
-        let mut k = 0;
-        let mut put32 = |xs: &[f32]| {
-            for pair in xs.chunks(2) {
-                b[k] = pair[0].to_bits() as u64 | (pair.get(1).map(|x| x.to_bits() as u64).unwrap_or(0) << 32);
-                k += 1;
-            }
-        };
-        put32(&self.u.to_array()); // 2
-        put32(&self.w.to_array()); // 2
-        put32(&self.ua.to_array()); // 2
-        put32(&self.u2.to_array()); // 1
-        put32(&self.q.to_array()); // 2
-        put32(&self.p.to_array()); // 2
-        put32(&self.m3.to_cols_array()); // 5
-        put32(&self.m4.to_cols_array()); // 8
-        put32(&self.a3.to_cols_array()); // 6
-        put32(&self.ms.to_cols_array()); // 8  => 38
-        let _ = put32;
-        let d = self.du.to_array();
-        b[38] = d[0].to_bits();
-        b[39] = d[1].to_bits();
-        b[40] = d[2].to_bits();
-        let dq = self.dq.to_array();
-        b[41] = dq[0].to_bits() ^ dq[1].to_bits().rotate_left(21);
-        b[42] = dq[2].to_bits() ^ dq[3].to_bits().rotate_left(21);
-        b[43] = self.dm.to_cols_array().iter().fold(0u64, |h, x| hmix(h, x.to_bits()));
+        let mut f: Vec<f32> = vec![];
+        f.extend_from_slice(&self.u.to_array());
+        f.extend_from_slice(&self.w.to_array());
+        f.extend_from_slice(&self.ua.to_array());
+        f.extend_from_slice(&self.u2.to_array());
+        f.extend_from_slice(&self.q.to_array());
+        f.extend_from_slice(&self.p.to_array());
+        f.extend_from_slice(&self.m3.to_cols_array());
+        f.extend_from_slice(&self.m4.to_cols_array());
+        f.extend_from_slice(&self.a3.to_cols_array());
+        f.extend_from_slice(&self.ms.to_cols_array()); // 3+3+3+2+4+4+9+16+12+16 = 72 f32 = 36 u64
+        let mut b = [0u64; NB];
+        for (k, pair) in f.chunks(2).enumerate() {
+            b[k] = pair[0].to_bits() as u64 | (pair[1].to_bits() as u64) << 32;
+        }
+        let mut k = 36;
+        for x in self.du.to_array().iter().chain(self.dq.to_array().iter()).chain(self.dm.to_cols_array().iter()) {
+            b[k] = x.to_bits();
+            k += 1;
+        } // 3 + 4 + 16 = 23 -> 59
         b
+    }
+    fn from_bits(b: &[u64]) -> Pool {
+        let mut f = Vec::with_capacity(72);
+        for k in 0..36 {
+            f.push(f32::from_bits(b[k] as u32));
+            f.push(f32::from_bits((b[k] >> 32) as u32));
+        }
+        let d: Vec<f64> = b[36..59].iter().map(|x| f64::from_bits(*x)).collect();
+        Pool {
+            u: Vec3::from_slice(&f[0..3]),
+            w: Vec3::from_slice(&f[3..6]),
+            ua: Vec3A::from_slice(&f[6..9]),
+            u2: Vec2::from_slice(&f[9..11]),
+            q: Quat::from_slice(&f[11..15]),
+            p: Quat::from_slice(&f[15..19]),
+            m3: Mat3::from_cols_slice(&f[19..28]),
+            m4: Mat4::from_cols_slice(&f[28..44]),
+            a3: Affine3A::from_cols_slice(&f[44..56]),
+            ms: Mat4::from_cols_slice(&f[56..72]),
+            du: DVec3::from_slice(&d[0..3]),
+            dq: DQuat::from_slice(&d[3..7]),
+            dm: DMat4::from_cols_slice(&d[7..23]),
+        }
     }
     fn hash(&self) -> u64 {
         self.bits().iter().fold(0x1234u64, |h, x| hmix(h, *x))
@@ -92,6 +110,11 @@ impl Pool {
 type Op = (&'static str, fn(&Pool) -> Pool);
 const ANG: [f32; 4] = [0.3, -1.7, 3.1, 1e-3];
 const TR: Vec3 = Vec3::new(1.5, -2.0, 0.25);
+
+/// a unit "up" hint that is neither parallel nor perpendicular to the unit direction `d`
+fn skew_up(d: Vec3) -> Vec3 {
+    (d.any_orthonormal_vector() + d * 0.4).normalize()
+}
 
 fn ops() -> Vec<Op> {
     macro_rules! op {
@@ -154,13 +177,15 @@ fn ops() -> Vec<Op> {
         op!("m3 = m3.transpose()", |s| { s.m3 = s.m3.transpose() }),
         op!("m3 = Mat3::from_euler(XYZ, m3.to_euler(XYZ))", |s| { let (a, b, c) = s.m3.to_euler(EulerRot::XYZ); s.m3 = Mat3::from_euler(EulerRot::XYZ, a, b, c) }),
         op!("m4 = Mat4::from_rotation_translation(q, t)", |s| { s.m4 = Mat4::from_rotation_translation(s.q, TR) }),
-        op!("m4 = Mat4::look_to_rh(t, u, up)", |s| { s.m4 = Mat4::look_to_rh(TR, s.u, s.u.any_orthonormal_vector()) }),
-        op!("m4 = Mat4::look_at_lh(t, t + w, up)", |s| { s.m4 = Mat4::look_at_lh(TR, TR + s.w * 2.0, s.w.any_orthonormal_vector()) }),
+        op!("m4 = Mat4::look_to_rh(t, u, up)", |s| { s.m4 = Mat4::look_to_rh(TR, s.u, skew_up(s.u)) }),
+        op!("m3 = Mat3::look_to_lh(u, up); q = from_mat3(m3)", |s| { s.m3 = Mat3::look_to_lh(s.u, skew_up(s.u)); s.q = Quat::from_mat3(&s.m3) }),
+        op!("p = from_mat3a(Mat3A::look_at_rh(t, t + w, up))", |s| { let m = Mat3A::look_at_rh(TR, TR + s.w * 3.0, skew_up(s.w)); s.p = Quat::from_mat3a(&m); s.m3 = Mat3::from(m) }),
+        op!("m4 = Mat4::look_at_lh(t, t + w, up)", |s| { s.m4 = Mat4::look_at_lh(TR, TR + s.w * 2.0, skew_up(s.w)) }),
         op!("m4 = m4 * Mat4::from_quat(p)", |s| { s.m4 = s.m4 * Mat4::from_quat(s.p) }),
         op!("m4 = m4.inverse()", |s| { s.m4 = s.m4.inverse() }),
         op!("m4 = Mat4::from(a3)", |s| { s.m4 = Mat4::from(s.a3) }),
         op!("a3 = Affine3A::from_rotation_translation(p, t)", |s| { s.a3 = Affine3A::from_rotation_translation(s.p, TR) }),
-        op!("a3 = Affine3A::look_to_lh(t, w, up)", |s| { s.a3 = Affine3A::look_to_lh(TR, s.w, s.w.any_orthonormal_vector()) }),
+        op!("a3 = Affine3A::look_to_lh(t, w, up)", |s| { s.a3 = Affine3A::look_to_lh(TR, s.w, skew_up(s.w)) }),
         op!("a3 = a3 * Affine3A::from_quat(q)", |s| { s.a3 = s.a3 * Affine3A::from_quat(s.q) }),
         op!("a3 = a3.inverse()", |s| { s.a3 = s.a3.inverse() }),
         op!("a3 = Affine3A::from_mat4(m4)", |s| { s.a3 = Affine3A::from_mat4(s.m4) }),
@@ -228,17 +253,14 @@ struct CState {
 struct Chains {
     ops: Vec<Op>,
     seeds: Vec<Pool>,
-    pools: std::sync::Mutex<std::collections::HashMap<Vec<u64>, Pool>>,
     max_depth: u8,
 }
 impl Chains {
     fn pool_of(&self, s: &CState) -> Pool {
-        *self.pools.lock().unwrap().get(&s.bits).expect("pool for state")
+        Pool::from_bits(&s.bits)
     }
     fn remember(&self, p: &Pool) -> Vec<u64> {
-        let b = p.bits().to_vec();
-        self.pools.lock().unwrap().entry(b.clone()).or_insert(*p);
-        b
+        p.bits().to_vec()
     }
 }
 impl Model for Chains {
@@ -280,7 +302,16 @@ fn long_chains(rep: &mut Report, ops: &[Op], seeds: &[Pool], stream: &mut Vec<St
     // every sequence of length 12 over each 2-operation sub-alphabet of the closed operations
     let closed: Vec<usize> = ops.iter().enumerate().filter(|(_, o)| !o.0.starts_with("sinks")).map(|(i, _)| i).collect();
     let nsel = if rep.thorough() { closed.len() } else { 14 };
-    let sel: Vec<usize> = closed.iter().step_by((closed.len() / nsel).max(1)).copied().collect();
+    let mut sel: Vec<usize> = closed.iter().step_by((closed.len() / nsel).max(1)).copied().collect();
+    // always part of the alphabet: the self-multiplication and two consumers of its result (the known
+    // finding of known_findings.txt is therefore exercised, and shown, in every tier)
+    for name in ["q = q * q", "m3 = Mat3::from_quat(q)", "q = q.inverse()"] {
+        let k = ops.iter().position(|o| o.0 == name).expect("op");
+        if !sel.contains(&k) {
+            sel.push(k);
+        }
+    }
+    sel.sort();
     let mut pairs = vec![];
     for i in 0..sel.len() {
         for j in i + 1..sel.len() {
@@ -295,19 +326,28 @@ fn long_chains(rep: &mut Report, ops: &[Op], seeds: &[Pool], stream: &mut Vec<St
         let (a, b) = pairs[d[1]];
         let mut p = seeds[d[2]];
         let mut h = 0u64;
+        // number of self-multiplications so far: each `q = q * q` doubles the deviation of |q| from 1,
+        // so k of them amplify one rounding error 2^k-fold (a chain of 12 operations that stands for a
+        // product of 2^12 factors). Failures whose history contains >= 8 squarings are tagged with
+        // their own site (see known_findings.txt); every other failure keeps the plain site.
+        let mut squarings = 0u32;
         for step in 0..12 {
             let k = if d[0] >> step & 1 == 0 { a } else { b };
+            if ops[k].0 == "q = q * q" {
+                squarings += 1;
+            }
+            let tag = if squarings >= 8 { format!("chain::repeated-squaring(q=q*q x{squarings})") } else { "chain".to_string() };
             match catch(|| (ops[k].1)(&p)) {
                 Ok(n) => {
                     p = n;
                     h = hmix(h, p.hash());
                     if let Some((slot, what)) = p.check() {
-                        acc.fail(&format!("chain::{}", slot), format!("seed {} ops ({}, {}) pattern {:012b} step {}: {}", d[2], ops[a].0, ops[b].0, d[0], step, what));
+                        acc.fail(&format!("{tag}::{}", slot), format!("seed {} ops ({}, {}) pattern {:012b} step {}: {}", d[2], ops[a].0, ops[b].0, d[0], step, what));
                         break;
                     }
                 }
                 Err(e) => {
-                    acc.fail(&format!("chain::panic in `{}`", ops[k].0), format!("seed {} ops ({}, {}) pattern {:012b} step {}: {}", d[2], ops[a].0, ops[b].0, d[0], step, e));
+                    acc.fail(&format!("{tag}::panic in `{}`", ops[k].0), format!("seed {} ops ({}, {}) pattern {:012b} step {}: {}", d[2], ops[a].0, ops[b].0, d[0], step, e));
                     break;
                 }
             }
@@ -355,9 +395,10 @@ fn negative_table(rep: &mut Report) {
 fn main() {
     let mut rep = Report::new("C20", "model_checking");
     silence_panics();
-    rep.rule("stateright model: state = typed pool of real glam values (unit Vec3 x2, unit Vec3A, unit Vec2, unit Quat x2, rotation Mat3, rigid Mat4, rigid Affine3A, scale-carrying Mat4, unit DVec3/DQuat, rigid DMat4), init = 8 finite non-degenerate seeds, actions = 63 precondition-carrying operations fed with pool values, BFS over all sequences up to the depth bound; always-properties: no transition panics; every produced value passes the predicates the next operation asserts (is_normalized, affine last row, normalised axes, det != 0). E1: every length-12 sequence over each pair of closed operations. E3: per-operation sums of the hashes of all produced pools, compared byte-for-byte between the builds with and without glam-assert. Negative table: documented violations panic iff glam-assert is enabled");
-    let max_depth: u8 = if rep.thorough() { 4 } else { 3 };
-    let model = Chains { ops: ops(), seeds: seeds(), pools: Default::default(), max_depth };
+    rep.rule("stateright model: state = typed pool of real glam values (unit Vec3 x2, unit Vec3A, unit Vec2, unit Quat x2, rotation Mat3, rigid Mat4, rigid Affine3A, scale-carrying Mat4, unit DVec3/DQuat, rigid DMat4), init = 8 finite non-degenerate seeds, actions = 65 precondition-carrying operations fed with pool values, BFS over all sequences up to the depth bound; always-properties: no transition panics; every produced value passes the predicates the next operation asserts (is_normalized, affine last row, normalised axes, det != 0). E1: every length-12 sequence over each pair of closed operations. E3: per-operation sums of the hashes of all produced pools, compared byte-for-byte between the builds with and without glam-assert. Negative table: documented violations panic iff glam-assert is enabled");
+    // thorough: depth 4 (from 4 of the 8 seeds) in the SSE2 pair, depth 3 in the scalar-math pair
+    let max_depth: u8 = if rep.thorough() && !rep.cfg().contains("scalar") { 4 } else { 3 };
+    let model = Chains { ops: ops(), seeds: if max_depth >= 4 { seeds().into_iter().step_by(2).collect() } else { seeds() }, max_depth };
     rep.extra.insert("operations".into(), json!(model.ops.iter().map(|o| o.0).collect::<Vec<_>>()));
     let opsv = ops();
     let seedsv = seeds();
